@@ -445,7 +445,7 @@ Proof.
   pose proof (term_bad_pawns_bound b p) as P3. pose proof (term_bad_pawns_bound b (opp p)) as P3'.
   assert (Ht3 : Z.abs (term_bad_pawns b p - term_bad_pawns b (opp p)) <= 720) by lia.
   pose proof (emul_f_fle _ (weight 3) 720 _ _ 144 ltac:(lia) Ht3 W3 ltac:(zc) ltac:(zc) ltac:(zc)) as H3.
-  lia.
+  clear - H0 H1 H2 H3. lia.
 Qed.
 
 Theorem heuristic_nonterminal : forall b p, WfBoard b -> (forall c, color_count b c <= 16) ->
@@ -476,5 +476,25 @@ Proof.
   intros c. rewrite (legal_one_king s c HL). lia.
 Qed.
 
+
+(* the material hypothesis cannot be dropped: K+9Q+2R+2B+2N against a lone king
+   ("k7/8/8/8/8/1BBNN3/1QQQQR1R/1QQQKQQ1 w - - 0 60") is a legal position with 56 legal moves and static
+   score 10388 >= POS_INF *)
+Theorem nonterminal_counterexample :
+  ~ (forall s p d, LegalPos s -> gen_legal s <> [] ->
+       exists v, evaluate s p d = EVal v /\ is_terminal v = false).
+Proof.
+  intros H.
+  pose (big := mkState (mkBoard 0 1572864 393216 40960 7790 16 0 0 0 0 0 72057594037927936)
+                       White false false false false None 0 60).
+  assert (E : legal_posb big = true /\ length (gen_legal big) = 56%nat /\ evaluate big White 0 = EVal 10388)
+    by (vm_compute; repeat split).
+  destruct E as (E1 & E2 & E3).
+  destruct (H big White 0%N E1) as [v [Hv Ht]].
+  - intros En. rewrite En in E2. discriminate E2.
+  - rewrite E3 in Hv. injection Hv as <-. vm_compute in Ht. discriminate Ht.
+Qed.
+
 Print Assumptions heuristic_bound.
 Print Assumptions eval_nonterminal.
+Print Assumptions nonterminal_counterexample.
